@@ -327,14 +327,14 @@ def run(repo, R):
     R.extra.update({"abstract_runs": total_runs, "blocks_checked": total_blocks, "shell_bound": {k: str(v) for k, v in bounds.items()},
                     "type_patterns": "all 2^n per shell list", "kernel_call_sites": sorted(ksites), "transform_sites": sorted(tsites)})
     R.exhaustive = True
-    R.floor("A1", len(ksites), 12, "kernel call sites exercised")
-    R.floor("A3", len(tsites), 18, "generate_transformation sites exercised")
+    R.floor("A1", len(ksites), 6, "kernel call sites exercised")
+    R.floor("A3", len(tsites), 8, "generate_transformation sites exercised")
     n = 0
     for w in WRAPPERS:
         f = repo.func(w)
         R.note_function(f.qualname)
         n += check_wrapper_dispatch(repo, f, R, "DISPATCH")
-    R.floor("DISPATCH", n, 36, "wrapper dispatch call sites")
+    R.floor("DISPATCH", n, 24, "wrapper dispatch call sites")
     # the two special wrappers
     f = repo.func("gbasis.integrals.overlap_asymm.overlap_integral_asymmetric")
     R.note_function(f.qualname)
